@@ -52,6 +52,25 @@ Theorem C18_live_tail_exact :
 Proof. exact live_tail_exact. Qed.
 Print Assumptions C18_live_tail_exact.
 
+(* Row form of the same: a batch is delivered iff some row is wanted (at or
+   after the merge point and satisfying the clause); it has one row per wanted
+   original row, in batch order, and its k-th row carries in every column the
+   cell of the k-th wanted row — each wanted row once, nothing else. *)
+Theorem C18_live_rows_exact :
+  forall (sel : option sexpr) (b : batch) (merge : Z),
+  wf_batch b = true -> ts_col_ok b = true -> clause_ok sel b ->
+  match apply (from_sql sel) b merge with
+  | Some fb => b_rows fb = length (wanted sel b merge) /\ wanted sel b merge <> nil /\
+               forall name k, cell fb name k =
+                              match nth_error (wanted sel b merge) k with
+                              | Some j => cell b name j
+                              | None => None
+                              end
+  | None => wanted sel b merge = nil
+  end.
+Proof. exact live_rows_exact. Qed.
+Print Assumptions C18_live_rows_exact.
+
 (* What "the rows the mask selects" means: the k-th delivered row is the
    original row at the k-th kept index ... *)
 Theorem C18_delivered_rows :
